@@ -321,6 +321,11 @@ func duplicateFullTriggersFromContractedFunctionsToCallers(
 			// Duplicate the full trigger in every caller
 			for caller, callExprs := range calls {
 				for _, callExpr := range callExprs {
+					if len(callExpr.Args) == 0 {
+						// A variadic contracted function can be called without arguments. Such a
+						// call has no argument site to key or gate the duplicated triggers on.
+						continue
+					}
 					dupTrigger := duplicateFullTrigger(trigger, ctrtFunc, callExpr, pass,
 						isParamProducer, isReturnConsumer)
 
